@@ -2,6 +2,8 @@ import RawPanelVerif.Lemmas.InBits
 import RawPanelVerif.Lemmas.TotalIn
 import RawPanelVerif.Lemmas.DecShape
 import RawPanelVerif.Lemmas.DecSound2
+import RawPanelVerif.Lemmas.DecSound3
+import RawPanelVerif.Lemmas.DecGfx3
 /-!
 # C02 — inbound ASCII lines decode to exactly the panel state they denote
 
@@ -120,23 +122,30 @@ theorem brightness_one_two_spec (d : Bytes) (h : d.all isDigit = true) :
 
 /-! ## dec_sound
 
-FULL STATEMENT — NOT YET PROVED (validated by the correspondence on every generated record, including the text and
-graphics families):
+The statement as first written,
 
-    theorem dec_sound (O : Oracles) (ls : List Bytes) (h : inDomainLines O ls = true) :
-        ∃ ms, decInE O ls = .ok ms ∧ ms.flatMap effectsOfMsgOpt = readInbound O ls
+    ∀ O ls, inDomainLines O ls = true → ∃ ms, decInE O ls = .ok ms ∧ ms.flatMap effectsOfMsgOpt = readInbound O ls
 
-(`inDomainLines`: every line well-formed or non-grammar, graphics transfers in order).
+(`inDomainLines`: every line well-formed or non-grammar, graphics transfers in order) is FALSE:
+`dec_sound_blank_image_counterexample`, witness `["HWCg#1=0/0,0x0:"]`.  The line is well-formed (header 0×0, last index
+0, empty canonical base64); the reference reader delivers `setGfx 1 {mono, 0×0, no offset, no data}`; the decoder
+delivers the message `{States:[{HWCIDs:[1], HWCGfx:{}}]}`, whose graphics sub-message is the all-default `HWCGfx` —
+and `Spec.effectsOfStateId` gives an all-default sub-message no effect (it cannot tell "no graphics" from the
+all-default image; its comment assumes that image is not expressible in ASCII, but it is).  So the guard comes from the
+Spec's meaning function, not from the Go code: the decoder reassembles the image exactly (`dec_sound_nb`).
 
-PROVED below, for all line sequences of any length: the same statement for sequences whose lines are
-* non-grammar lines (any bytes), or
-* well-formed lines of every family EXCEPT `HWCt#` text lines and `HWCg#/HWCgRGB#/HWCgGray#` graphics lines, i.e.
-  the flow words and the 16 command words, the nine `key=num` commands (all arguments < 2^32), one- and two-argument
-  `PanelBrightness`, `SetCalibrationProfile`, `SetNetworkConfig`, `SimulateEnvironmentalHealth`, `HWC#`, `HWCx#`,
-  `HWCc#` (whole 32-bit value space, any id list), `HWCrawADCValues#`, `Mem/Shift/State/Flag#` registers, and JSON
-  lines (`{…}`, `[…]`, with the `encoding/json` result as a parameter);
-one effect group per line, in line order.  What is missing for the full statement: `decText` against `readText`
-on arbitrary well-formed field values, and the decoder's graphics reassembly against the reader's transfer state. -/
+PROVED below, for all line sequences of any length and any interleaving:
+* `dec_sound` — the statement above under the additional decidable guard `noBlankImage O none ls` (no graphics
+  transfer of the sequence delivers the all-default image: mono, 0×0, no offset, empty data);
+* `dec_sound_guard_exact` — on the domain the conclusion holds IFF the guard holds (the guard is the weakest possible);
+* `dec_sound_nb` — without any guard: the decoder never panics on the domain and its messages' effects are the
+  reader's effects minus the deliveries of the all-default image (`readFromNB`);
+* `gfx_part_step` — one graphics part: the decoder's reassembly state and the reader's transfer state stay in
+  correspondence (`DecGfx.Inv`), lines of other families in between leave both untouched;
+* `text_total` — `decText` against `readText` on every well-formed `HWCt#` value;
+* `dec_sound_nogfx` / `dec_sound_partial` — the conclusion, stated without guard, for sequences without graphics lines /
+  without text and graphics lines (kept from the earlier rounds; no graphics part, so nothing for the guard to check).
+Nothing of the first statement remains unproved except the instances refuted by the counterexample. -/
 
 /-- the partial domain: a line that is non-grammar, or well-formed and not a text / graphics line -/
 abbrev InPartialDomain := DecSound.InPartialDomain
@@ -161,6 +170,120 @@ example : ∀ l ∈ [asc "HWC#1,2=293", asc "hello", asc "PanelBrightness=3", as
     first
       | exact Or.inl (by decide)
       | exact Or.inr (by decide)
+
+/-! ### text lines included -/
+
+/-- the graphics-free domain: a line that is non-grammar, or well-formed and not an `HWCg#/HWCgRGB#/HWCgGray#` line
+(contains `InPartialDomain`, plus every well-formed `HWCt#` line) -/
+abbrev InNoGfxDomain := DecSound.InNoGfxDomain
+
+theorem inNoGfxDomain_of_partial (O : Oracles) (l : Bytes) (h : InPartialDomain O l) : InNoGfxDomain O l :=
+  DecSound.InNoGfxDomain_of_partial O l h
+
+/-- **`decText` against `readText`**: on every well-formed `HWCt#` value (21 `|`-separated fields, every packed
+formatting / icon / font / colour integer over its whole value space) the record the decoder builds means exactly the
+text state the reference reader reads, and it is never the all-default record -/
+theorem text_total (v : Bytes) (h : textWellFormed v = true) :
+    ∃ t, readText v = some t ∧ normText (textOf (decText v)) = t ∧ decText v ≠ {} :=
+  let ⟨t, h1, h2⟩ := DecText.text_kernel v h
+  ⟨t, h1, h2, DecText.decText_ne_default v⟩
+
+/-- **dec_sound_nogfx** (unbounded in the number of lines): `dec_sound` for every sequence without graphics lines —
+all families of `dec_sound_partial` and `HWCt#` text lines -/
+theorem dec_sound_nogfx (O : Oracles) (ls : List Bytes) (h : ∀ l ∈ ls, InNoGfxDomain O l) :
+    ∃ ms, decInE O ls = .ok ms ∧ ms.flatMap effectsOfMsgOpt = readInbound O ls :=
+  DecSound.dec_sound_nogfx O ls h
+
+/-- one line, text lines included -/
+theorem line_sound_nogfx (O : Oracles) (l : Bytes) (hw : classify O l = .wellFormed) (hng : DecSound.isGfxLine l = false) :
+    DecSound.LineSound O l := DecSound.line_sound_nogfx O l hw hng
+
+/-- non-vacuity: text lines (all 21 fields, negative value, format 10 with font size, colours, empty field 0 = hide)
+mixed with other families -/
+example : ∀ l ∈ [asc "HWCt#1,2=-12|1|11|Title|1|L1|L2|7|2|1|-5|5|-9|9||73|228|14|1|209|5", asc "HWC#1=293",
+      asc "HWCt#5=32|10", asc "hello", asc "HWCt#7=|||x", asc "HWCt#9=", asc "HWCt#3=4294967295|11|||||b"],
+    InNoGfxDomain default l := by
+  intro l hl
+  simp only [List.mem_cons, List.not_mem_nil, or_false] at hl
+  rcases hl with rfl | rfl | rfl | rfl | rfl | rfl | rfl <;>
+    first
+      | exact Or.inl (by decide)
+      | exact Or.inr (by decide)
+
+example : textWellFormed (asc "-12|1|11|Title|1|L1|L2|7|2|1|-5|5|-9|9||73|228|14|1|209|5") = true := by decide
+
+/-! ### graphics lines included: the whole domain -/
+
+/-- the all-default image `{mono, 0×0, no offset, no data}` -/
+abbrev blankGfx := DecGfx.blankGfx
+/-- no graphics transfer of the sequence (reader state `x` at its start) delivers the all-default image -/
+abbrev noBlankImage := DecGfx.noBlankImage
+/-- the reference reader with the deliveries of the all-default image left out -/
+abbrev readFromNB := DecGfx.readFromNB
+
+/-- **the first statement of `dec_sound` is false**: the all-default image is expressible in ASCII, the reader
+delivers it, and the message the decoder builds for it carries no effect under `effectsOfStateId` -/
+theorem dec_sound_blank_image_counterexample :
+    ¬ (∀ (O : Oracles) (ls : List Bytes), inDomainLines O ls = true →
+        ∃ ms, decInE O ls = .ok ms ∧ ms.flatMap effectsOfMsgOpt = readInbound O ls) := by
+  intro h
+  obtain ⟨ms, h1, h2⟩ := h default [asc "HWCg#1=0/0,0x0:"] (by decide)
+  have hd : (match decInE default [asc "HWCg#1=0/0,0x0:"] with
+      | .ok ms => ms.flatMap effectsOfMsgOpt
+      | .error _ => [Effect.flow .ping]) = [] := by decide
+  rw [h1] at hd
+  simp only [] at hd
+  rw [hd] at h2
+  exact absurd h2 (by decide)
+
+/-- the witness in detail: in the domain, one effect for the reader, none in the decoder's message; also with the
+image split over two lines -/
+example : inDomainLines default [asc "HWCg#1=0/0,0x0:"] = true ∧
+    readInbound default [asc "HWCg#1=0/0,0x0:"] = [.setGfx 1 blankGfx] ∧
+    noBlankImage default none [asc "HWCg#1=0/0,0x0:"] = false ∧
+    inDomainLines default [asc "HWCg#1=0/1,0x0:", asc "HWCg#1=1:"] = true ∧
+    noBlankImage default none [asc "HWCg#1=0/1,0x0:", asc "HWCg#1=1:"] = false := by decide
+
+/-- **dec_sound** (all line sequences of the domain, any length, any interleaving of graphics transfers with other
+lines): the decoder does not panic and the messages it returns have exactly the effects the reference reader reads —
+under the guard that no transfer delivers the all-default image -/
+theorem dec_sound (O : Oracles) (ls : List Bytes) (h : inDomainLines O ls = true) (hb : noBlankImage O none ls = true) :
+    ∃ ms, decInE O ls = .ok ms ∧ ms.flatMap effectsOfMsgOpt = readInbound O ls :=
+  DecGfx.dec_sound O ls h hb
+
+/-- the guard of `dec_sound` is exact -/
+theorem dec_sound_guard_exact (O : Oracles) (ls : List Bytes) (h : inDomainLines O ls = true) :
+    (∃ ms, decInE O ls = .ok ms ∧ ms.flatMap effectsOfMsgOpt = readInbound O ls) ↔ noBlankImage O none ls = true :=
+  DecGfx.dec_sound_iff O ls h
+
+/-- **dec_sound without guard**: no panic, and the effects are the reader's minus the deliveries of the all-default
+image -/
+theorem dec_sound_nb (O : Oracles) (ls : List Bytes) (h : inDomainLines O ls = true) :
+    ∃ ms, decInE O ls = .ok ms ∧ ms.flatMap effectsOfMsgOpt = readFromNB O none ls :=
+  DecGfx.dec_sound_nb O ls h
+
+/-- one graphics part (sub-matches `m` of the line denote the part `p`, `DecGfx.GRel`): from corresponding states
+(`DecGfx.Inv`) the decoder's `decGfx` (repaired semantics) and the reader's `stepGfx` reach corresponding states, and
+the message of a completed transfer has the delivered effects (none for the all-default image) -/
+theorem gfx_part_step (g : GfxSt) (x : Option Xfer) (l : Bytes) (m : List Bytes) (p : GfxPart)
+    (hrel : DecGfx.GRel l m p) (hinv : DecGfx.Inv g x) (hdisc : stepGfx x p ≠ (none, [])) :
+    ∃ g' r, decGfx false g m = .ok (g', r) ∧ DecGfx.Inv g' (stepGfx x p).1 ∧
+      effectsOfMsgOpt r = (stepGfx x p).2.filter (fun e => !DecGfx.isBlankEffect e) :=
+  DecGfx.gfx_step g x l m p hrel hinv hdisc
+
+/-- every well-formed graphics line is a part for the reader and is accepted by `regex_gfx` (and by nothing before it)
+with sub-matches denoting that part -/
+theorem gfx_line (O : Oracles) (l : Bytes) (hw : classify O l = .wellFormed) (hg : DecSound.isGfxLine l = true) :
+    DecGfx.GfxLine O l := DecGfx.gfx_line O l hw hg
+
+/-- non-vacuity of `dec_sound`: three transfers (header with offset over two lines, default header over three lines,
+one-line gray) interleaved with state, text, flow and non-grammar lines -/
+example : inDomainLines default [asc "HWCg#1,2=0/1,8x8,3,4:AAAA", asc "HWC#5=4", asc "HWCt#7=-12|1|11|Title",
+      asc "HWCg#1,2=1:AAAA", asc "hello", asc "HWCgRGB#9=0:AAAA", asc "HWCgRGB#9=1:", asc "ping", asc "HWCgRGB#9=2:AQID",
+      asc "HWCgGray#3=0/0,2x2:/w=="] = true ∧
+    noBlankImage default none [asc "HWCg#1,2=0/1,8x8,3,4:AAAA", asc "HWC#5=4", asc "HWCt#7=-12|1|11|Title",
+      asc "HWCg#1,2=1:AAAA", asc "hello", asc "HWCgRGB#9=0:AAAA", asc "HWCgRGB#9=1:", asc "ping", asc "HWCgRGB#9=2:AQID",
+      asc "HWCgGray#3=0/0,2x2:/w=="] = true := by decide
 
 /-- **non-grammar lines never produce a state change, command or register write** (any line, any bytes, whose
 keyword / key name is not part of the grammar, `classify O l = .nonGrammar`): the decoder returns at most the empty
